@@ -201,6 +201,8 @@ def name(ctx, rule="O-NAME"):
         inst = "value[%d..%d] = %s" % (lo, lo + n - 1, f)
         if v.window(lo, n) == src(f, 0, n):
             ctx.holds(rule, inst)
+        elif BV(v.window(lo, n), 0).has_top():
+            ctx.unknown(rule, "%s: not interpretable in the known-bits domain (%s)" % (inst, BV(v.window(lo, n), 0).describe()))
         else:
             ctx.violated(rule, vf, inst, "bits are %s" % BV(v.window(lo, n), 0).describe(), vf.node)
     # value setter: fields from the integer
